@@ -207,6 +207,8 @@ struct Drv<'a> {
     next_req: u32,
     publish_requests: u64,
     ticks: u64,
+    /// timestamps to return of the CreateMonitoredItems / ModifyMonitoredItems requests
+    ts: TimestampsToReturn,
 }
 
 impl<'a> Drv<'a> {
@@ -219,6 +221,7 @@ impl<'a> Drv<'a> {
             next_req: 1,
             publish_requests: 0,
             ticks: 0,
+            ts: TimestampsToReturn::Both,
         }
     }
 
@@ -279,7 +282,7 @@ impl<'a> Drv<'a> {
         let req = CreateMonitoredItemsRequest {
             request_header: rh(self.req_handle()),
             subscription_id: self.sub_id,
-            timestamps_to_return: TimestampsToReturn::Both,
+            timestamps_to_return: self.ts,
             items_to_create: Some(items),
         };
         match hk::create_monitored_items(self.env.state.clone(), self.session.clone(), self.env.aspace.clone(), &req) {
@@ -293,7 +296,7 @@ impl<'a> Drv<'a> {
         let req = ModifyMonitoredItemsRequest {
             request_header: rh(self.req_handle()),
             subscription_id: self.sub_id,
-            timestamps_to_return: TimestampsToReturn::Both,
+            timestamps_to_return: self.ts,
             items_to_modify: Some(items),
         };
         match hk::modify_monitored_items(self.env.state.clone(), self.session.clone(), self.env.aspace.clone(), &req) {
@@ -1915,8 +1918,17 @@ struct C25Case {
     getter: bool,
     si_neg: bool,
     q: u32,
+    /// timestamps to return asked for by the client: 0 Both, 1 Source, 2 Server, 3 Neither
+    ts: u8,
     ops: Vec<Op25>,
 }
+
+const TS25: [(TimestampsToReturn, &str); 4] = [
+    (TimestampsToReturn::Both, "Both"),
+    (TimestampsToReturn::Source, "Source"),
+    (TimestampsToReturn::Server, "Server"),
+    (TimestampsToReturn::Neither, "Neither"),
+];
 
 fn make_value(family: usize, x: f64, big: bool, kind: u64) -> Variant {
     let xi = if x.is_nan() { 0i64 } else { x.round().max(-9e15).min(9e15) as i64 };
@@ -2083,7 +2095,10 @@ fn c25_gen(case_seed: u64, filter_idx: usize, thorough: bool) -> C25Case {
         }
         ops.push(Op25::Sample(cur.clone(), name));
     }
-    C25Case { case_seed, filter_idx, filter, family, getter, si_neg, q, ops }
+    // what the client wants returned must not influence what counts as a change (drawn last: the histories of
+    // a given case seed are the same for every choice)
+    let ts = if rng.chance(1, 2) { 0 } else { 1 + rng.below(3) as u8 };
+    C25Case { case_seed, filter_idx, filter, family, getter, si_neg, q, ts, ops }
 }
 
 #[derive(Clone, Copy, Debug, PartialEq)]
@@ -2319,6 +2334,7 @@ fn c25_case_json(c: &C25Case, thorough: bool, class: &str) -> Value {
         "variable": if c.getter { "getter-callback" } else { "stored-value" },
         "sampling": if c.si_neg { "-1 (publishing interval)" } else { "0 (-> minimum)" },
         "queue_size": c.q,
+        "timestamps_to_return": TS25[c.ts as usize % 4].1,
         "first_ops": trace,
         "class": class,
     })
@@ -2365,12 +2381,13 @@ fn values_match(sample: &Option<Variant>, got: &Option<Variant>) -> bool {
 fn c25_run(env: &Env, c: &C25Case, thorough: bool, rep: &mut Report, st: &mut C25Stats) {
     env.apply_limits(&DEFAULT_LIMITS);
     let class = format!(
-        "trigger={} deadband={} family={} var={} si={}",
+        "trigger={} deadband={} family={} var={} si={} ts={}",
         c.filter.trigger_name(),
         c.filter.db_class(),
         FAMILIES[c.family],
         if c.getter { "getter" } else { "stored" },
-        if c.si_neg { "-1" } else { "min" }
+        if c.si_neg { "-1" } else { "min" },
+        TS25[c.ts as usize % 4].1
     );
     let case = c25_case_json(c, thorough, &class);
     rep.begin_case(&case);
@@ -2384,6 +2401,8 @@ fn c25_run(env: &Env, c: &C25Case, thorough: bool, rep: &mut Report, st: &mut C2
 
 fn c25_history(env: &Env, c: &C25Case, case: &Value, rep: &mut Report, st: &mut C25Stats) {
     let mut drv = Drv::new(env);
+    drv.ts = TS25[c.ts as usize % 4].0;
+    let ts_tag = if c.ts % 4 == 0 { String::new() } else { format!("|timestamps-to-return={}", TS25[c.ts as usize % 4].1) };
     let handle = 77u32;
     match drv.create_subscription(100.0, 90_000, 3) {
         Ok(r) if r.revised_publishing_interval == 100.0 => {}
@@ -2494,7 +2513,8 @@ fn c25_history(env: &Env, c: &C25Case, case: &Value, rep: &mut Report, st: &mut 
                         // only arises for deadband values without defined semantics (NaN)
                         format!("spurious-report|unchanged-numeric-value|deadband={}", filter.db_coarse())
                     } else if filter.trigger == 2 {
-                        format!("spurious-report|{}|{}", fdesc(&filter), cls)
+                        // the timestamp trigger compares timestamps, so which of them the client asked to have returned is part of the shape
+                        format!("spurious-report|{}|{}{}", fdesc(&filter), cls, ts_tag)
                     } else {
                         // which timestamps moved is irrelevant for the Status and StatusValue triggers
                         format!("spurious-report|{}|{}", fdesc(&filter), cls.split(",timestamps=").next().unwrap_or(""))
